@@ -20,7 +20,8 @@
    operation); 3 holder alive without any own lock file although nobody removed it; 4 own lock file
    left behind after the holder finished; 5 lock file removed by others, forced refresh ran, but the
    context was not cancelled before the backend was unfrozen; 6 a forced refresh reported success
-   (context alive when the backend was unfrozen) although the holder owns no lock file. *)
+   (context alive when the backend was unfrozen) although the holder owns no lock file; 7 a forced refresh reported success although
+   the holder's old lock file had been removed before the second existence check. *)
 From Restic Require Import Base.Prelude.
 
 Module C13m.
@@ -171,8 +172,9 @@ Record case := mkCase {
   c_left_behind : Z;           (* own lock files present after the holder finished *)
   c_forced_after_removal : list bool; (* per forced refresh that ran after an external removal:
                                          context cancelled before Unfreeze *)
-  c_forced_ok_has_file : list bool    (* per forced refresh that reported success (context alive at Unfreeze):
+  c_forced_ok_has_file : list bool;   (* per forced refresh that reported success (context alive at Unfreeze):
                                          the holder owns a lock file at that moment *)
+  c_forced_ok_old_existed : list bool (* ... and its OLD lock file was still there at both existence checks *)
 }.
 
 Definition sample_fresh (c : cfg) (x : sample) : bool :=
@@ -186,7 +188,8 @@ Definition check_C13 (k : case) : bool :=
   forallb sample_has_file (c_samples k) &&
   (c_left_behind k =? 0) &&
   forallb (fun b => b) (c_forced_after_removal k) &&
-  forallb (fun b => b) (c_forced_ok_has_file k).
+  forallb (fun b => b) (c_forced_ok_has_file k) &&
+  forallb (fun b => b) (c_forced_ok_old_existed k).
 
 Definition check_case (k : case) : nat :=
   if negb (forallb (sample_fresh (c_cfg k)) (c_samples k)) then 2
@@ -194,6 +197,7 @@ Definition check_case (k : case) : nat :=
   else if negb (c_left_behind k =? 0) then 4
   else if negb (forallb (fun b => b) (c_forced_after_removal k)) then 5
   else if negb (forallb (fun b => b) (c_forced_ok_has_file k)) then 6
+  else if negb (forallb (fun b => b) (c_forced_ok_old_existed k)) then 7
   else match run (c_cfg k) (init (c_acq k)) (c_trace k) with
        | None => 1
        | Some s => if Bool.eqb (alive s) (c_alive_end k) then 0 else 1
